@@ -257,13 +257,16 @@ def file_history(ctx, base_text, bad_texts, c):
             real.Cm.compile_prolog_from_file(path, Ctx)
         except Exception:
             return None
-        for t in bad_texts:
+        for ti, t in enumerate(bad_texts):
             with open(path, 'w', encoding='utf8', newline='') as f:
                 f.write(t)
             os.utime(path, ns=(st.st_atime_ns, st.st_mtime_ns))
             c['file_history_cases'] = c.get('file_history_cases', 0) + 1
+            # the options vary: everything off, the library's own default class, a source-file name set by the
+            # caller, debug options on (returning normally - with code or with None - is an acceptance)
+            opts = [Ctx, real.Cm.CompilerContext, debug_options(0), debug_options(1 + (ti % 7))][(ti + len(base_text)) % 4]
             try:
-                real.Cm.compile_prolog_from_file(path, Ctx)
+                real.Cm.compile_prolog_from_file(path, opts)
             except Exception:
                 continue
             return {'kind': 'file_outside_grammar_accepted_after_valid_version', 'detail': {'same_size': True, 'mtime_preserved': True},
